@@ -5,6 +5,7 @@ package main
 // reachability.
 
 import (
+	"fmt"
 	"go/constant"
 	"go/token"
 	"go/types"
@@ -463,4 +464,100 @@ func funcOperand(v ssa.Value) *ssa.Function {
 		}
 	}
 	return fn
+}
+
+// poolEscapes: in a function that returns a buffer to encoding/bufpool, the
+// bytes of a pooled buffer (b.Bytes() and slices of it) may only be read by
+// callees that copy them out before the function returns (allowed: callee key →
+// argument index) or measured with len/cap. Anything else — returning them,
+// storing them, handing them to a reader that keeps sub-slices — lets memory
+// that the pool will hand to someone else be seen later.
+func poolEscapes(c *Ctx, f *ssa.Function, allowed map[string]int) []string {
+	var out []string
+	if len(callsTo(f, false, "encoding/bufpool.Put")) == 0 {
+		return nil
+	}
+	seen := map[ssa.Value]bool{}
+	var follow func(v ssa.Value)
+	follow = func(v ssa.Value) {
+		if seen[v] || v.Referrers() == nil {
+			return
+		}
+		seen[v] = true
+		for _, r := range *v.Referrers() {
+			switch t := r.(type) {
+			case *ssa.Slice:
+				if t.X == v {
+					follow(t)
+				}
+			case *ssa.Phi:
+				follow(t)
+			case *ssa.ChangeType:
+				follow(t)
+			case ssa.CallInstruction:
+				k := calleeKey(t)
+				if k == "builtin:len" || k == "builtin:cap" {
+					continue
+				}
+				ok := false
+				if idx, has := allowed[k]; has {
+					if a := t.Common().Args; idx < len(a) && a[idx] == v {
+						ok = true
+						for i, x := range a {
+							if i != idx && x == v {
+								ok = false
+							}
+						}
+					}
+				}
+				if k == "builtin:copy" {
+					if a := t.Common().Args; len(a) == 2 && a[1] == v && a[0] != v {
+						ok = true // source of a copy
+					}
+				}
+				if k == "builtin:append" {
+					if a := t.Common().Args; len(a) == 2 && a[1] == v && a[0] != v {
+						ok = true // append(dst, pooled...) copies
+					}
+				}
+				if !ok {
+					out = append(out, "handed to "+k+" at "+c.Pos(r.Pos()))
+				}
+			case *ssa.Return:
+				out = append(out, "returned at "+c.Pos(retPos(t)))
+			case *ssa.Store:
+				if t.Val == v {
+					out = append(out, "stored at "+c.Pos(t.Pos()))
+				}
+			case *ssa.MakeInterface, *ssa.MakeClosure, *ssa.MapUpdate, *ssa.Send:
+				out = append(out, "escapes at "+c.Pos(r.Pos()))
+			case *ssa.Convert:
+				// []byte → string copies
+			case *ssa.IndexAddr, *ssa.Index, *ssa.Lookup, *ssa.BinOp, *ssa.UnOp, *ssa.DebugRef:
+			default:
+				out = append(out, fmt.Sprintf("used by %T at %s", r, c.Pos(r.Pos())))
+			}
+		}
+	}
+	for _, s := range callsTo(f, false, "(*bytes.Buffer).Bytes") {
+		if v := s.Value(); v != nil {
+			follow(v)
+		}
+	}
+	return out
+}
+
+// mapUpdatesInAnyField: map updates of f whose map is loaded from a struct field.
+func mapUpdatesInAnyField(f *ssa.Function) []*ssa.MapUpdate {
+	var out []*ssa.MapUpdate
+	for _, b := range f.Blocks {
+		for _, in := range b.Instrs {
+			if mu, ok := in.(*ssa.MapUpdate); ok {
+				if mentions(mu.Map, func(v ssa.Value) bool { _, _, isF := fieldOf(v); return isF }, 2, nil) {
+					out = append(out, mu)
+				}
+			}
+		}
+	}
+	return out
 }
